@@ -46,6 +46,9 @@ def instances(tier, seed):
                             label="tdrk %s n=2 time-dependent=%s" % (m, td), key="rk/%s" % m))
     for m in ("RKF45", "Cash-Karp45"):
         out.append(dict(op="adaptive", method=m, max_trials=2, label="adaptive %s: accept/reject bookkeeping (<= 2 trials)" % m, key="adaptive/%s" % m, run_opts=dict(max_paths=6000)))
+    for order in ((2,) if tier == "quick" else (2, 4)):
+        out.append(dict(op="adaptive_taylor", order=order, max_trials=3, label="adaptive Taylor P&C order %d: every trial (<= 3 per call) applies the polynomial of ITS step to the state it started from" % order,
+                        key="adaptive/taylor", run_opts=dict(max_paths=6000, budget_s=120.0)))
     out.append(dict(op="dispatch", label="Mps.evolve dispatch table and normalisation switch", key="dispatch"))
     # the real projector-splitting sweeps of the chain with the local Krylov propagator replaced by a contract stub
     chains = [(("e", "e"), (1, 2, 1)), (("e", "e", "e"), (1, 2, 2, 1))]
@@ -288,6 +291,8 @@ def make_harness(P):
         from renormalizer.utils import EvolveConfig, EvolveMethod, CompressConfig, CompressCriteria
         if op == "adaptive":
             return h_adaptive(ctx, P)
+        if op == "adaptive_taylor":
+            return h_adaptive_taylor(ctx, P)
         if op == "dispatch":
             return h_dispatch(ctx)
         if op == "tdvp_sweep":
@@ -443,6 +448,93 @@ def h_adaptive(ctx, P):
     if len(log) == 1:
         y0 = lib.dense_vec(lib.tensors(psi))
         ctx.check("single accepted trial = RK map of the pair's propagating row", ctx.eq(lib.dense_of(res), rk_reference(tab, lambda t: D0, y0, last["tau"], 0)))
+
+
+def h_adaptive_taylor(ctx, P):
+    """the adaptive Taylor propagation-and-compression driver: error estimate (distance) and norm are arbitrary positive numbers, compression is the identity.
+    Recorded per trial: the level's start state (dense, taken on entry), the trial step dt, the trial's result."""
+    from renormalizer.mps import Mps
+    from renormalizer.mps import mps as mpsmod
+    from renormalizer.utils import EvolveConfig, EvolveMethod, CompressConfig, CompressCriteria
+    model = lib.make_model(("s", "s"))
+    psi = sym_state(ctx, model, 2, 1)
+    psi.compress_config = CompressConfig(CompressCriteria.fixed, max_bonddim=10 ** 6)
+    H0 = sym_op(ctx, model, 2, 1, "o")
+    D0 = lib.dense_op(lib.tensors(H0))
+    T = ctx.real("T", 1.0)
+    g = ctx.real("guess", 0.6)
+    ctx.assume(ctx.all([ctx.lt(0, T), ctx.lt(0, g)]), "T > 0, guess_dt > 0")
+    order = P["order"]
+    psi.evolve_config = EvolveConfig(EvolveMethod.prop_and_compress, adaptive=True, taylor_order=order, guess_dt=g)
+    if ctx.symbolic:
+        ctx.explorer.any_mode = "opaque"
+    levels = []      # dict(start=dense on entry, state=object, T=evolve_dt, trials=[dict(dt, result)])
+    real_level = mpsmod.Mps._evolve_prop_and_compress
+    real_min_abs = mpsmod.min_abs
+    real_distance = mpsmod.Mps.distance
+    saved_norm = mpsmod.Mps.mp_norm
+    last_dt = [None]
+    ntr = [0]
+
+    def level(self_, mpo, evolve_dt):
+        levels.append(dict(start=lib.dense_of(self_), state=self_, T=evolve_dt, trials=[]))
+        return real_level(self_, mpo, evolve_dt)
+
+    def min_abs(a, b):
+        r = real_min_abs(a, b)
+        last_dt[0] = r
+        return r
+
+    def fake_distance(self_, other):
+        # `new_mps1.distance(new_mps2)`: other is the trial's result; the step is the value min_abs produced at the top of this pass
+        if ntr[0] >= P.get("max_trials", 3):
+            raise _TrialBound()
+        ntr[0] += 1
+        levels[-1]["trials"].append(dict(dt=last_dt[0], result=other, dense=lib.dense_of(other)))
+        v = ctx.real("dis%d" % ntr[0], [0.5, 1e-9, 1e-9][(ntr[0] - 1) % 3])
+        ctx.assume(ctx.lt(0, v), "error estimates are positive")
+        return v
+
+    def fake_norm(self_):
+        v = ctx.real("mpnorm%d" % ntr[0], 1.0)
+        ctx.assume(ctx.lt(0, v), "norms are positive")
+        return v
+    mpsmod.Mps._evolve_prop_and_compress, mpsmod.min_abs, mpsmod.Mps.distance = level, min_abs, fake_distance
+    mpsmod.Mps.mp_norm = property(fake_norm)
+    res = None
+    try:
+        with IdentityCompression():
+            try:
+                res = psi.evolve(H0, T, normalize=False)
+            except _TrialBound:
+                pass
+    finally:
+        mpsmod.Mps._evolve_prop_and_compress, mpsmod.min_abs, mpsmod.Mps.distance = real_level, real_min_abs, real_distance
+        mpsmod.Mps.mp_norm = saved_norm
+    cs_ = psi.evolve_config.taylor_config.coeff
+    conds, hand, tconds = [], True, []
+    for li, lv in enumerate(levels):
+        for tr in lv["trials"]:
+            v = lv["start"]
+            ref = v * cs_[0]
+            for k in range(1, order + 1):
+                v = D0.dot(v) * (-1j) * tr["dt"]
+                ref = ref + v * cs_[k]
+            conds.append(ctx.eq(tr["dense"], ref))
+        if li + 1 < len(levels) and lv["trials"]:
+            nxt = levels[li + 1]
+            hand = hand and (nxt["state"] is lv["trials"][-1]["result"])
+            tconds.append(ctx.eq(nxt["T"], lv["T"] - lv["trials"][-1]["dt"]))
+    ctx.check("adaptive Taylor: every trial - also one that follows a rejected trial - equals sum_k c_k (-i dt H)^k applied to the state its level started from, with ITS OWN step dt",
+              ctx.all(conds))
+    ctx.check("adaptive Taylor: an accepted sub-step hands its result to the next level", hand)
+    ctx.check("adaptive Taylor: an accepted sub-step reduces the remaining time by exactly its step", ctx.all(tconds))
+    ctx.check("adaptive Taylor: the first level starts from the input with the requested time", levels[0]["state"] is psi and ctx.eq(levels[0]["T"], T))
+    ctx.check("adaptive Taylor: the input state is left as it was", ctx.eq(lib.dense_of(psi), levels[0]["start"]))
+    if res is None:
+        return
+    last = levels[-1]
+    ctx.check("adaptive Taylor: the returned state is the last trial's result", res is last["trials"][-1]["result"])
 
 
 class _TrialBound(Exception):
